@@ -100,6 +100,10 @@ STRINGS = [("markup", "<b>&amp; \"q\" 'a' ]]>"), ("leading blank", " lead"), ("t
            ("nbsp", "a b"), ("line separator", "a b"), ("empty", ""), ("ampersand entity look-alike", "&lt;&#13;&#x41;"), ("cdata look-alike", "<![CDATA[x]]>"),
            ("comment look-alike", "<!-- x -->"), ("pi look-alike", "<?xml x?>"), ("percent and braces", "%1 {0} $x"), ("quote only", "\""), ("apostrophe", "'"),
            ("many spaces inside", "a    b"), ("c1 control (valid XML 1.0)", "a\u0085b")]
+# literals that consist of exactly one escape sequence, in every spelling of an escape (the value is what the spelling denotes)
+STRINGS += [("lone escape " + lit, val, lit) for lit, val in (('"\\n"', "\n"), ('"\\t"', "\t"), ('"\\\\"', "\\"), ('"\\x26"', "&"), ('"\\x3c"', "<"), ('"\\u00e9"', "\u00e9"),
+                                                         ('"\\u{3c}"', "<"), ('"\\u{1F600}"', "\U0001F600"), ("'\\''", "'"), ('"\\r"', "\r"), ('"\\u0041"', "A"), ('"\\x41\\x42"', "AB"),
+                                                         ('"a\\x26"', "a&"), ('"\\x26b"', "&b"))]
 NON_XML = [("backspace", "a\bb"), ("form feed", "a\fb"), ("vertical tab", "a\vb"), ("nul", "a\0b"), ("0x01", "a\x01b"), ("U+FFFE", "a￾b")]
 
 
@@ -122,9 +126,9 @@ def js_literal(s):
     return o + '"'
 
 
-def string_doc(s):
+def string_doc(s, lit=None):
     """one document per string: the string at every position where a user string reaches the XML"""
-    l = js_literal(s)
+    l = lit or js_literal(s)
     return ("import qmluic.QtWidgets\nQWidget {\n  windowTitle: %s\n  toolTip: qsTr(%s)\n  windowIcon.name: %s\n"
             "  QVBoxLayout {\n    QComboBox { id: combo; model: [%s, \"x\"] }\n    QListWidget { id: lw; model: [qsTr(%s)] }\n"
             "    QLabel { id: lab; pixmap: %s; text: \"p\" + %s }\n"
@@ -278,9 +282,9 @@ def run(chk):
         back.append((i, q.get("src") or q["files"]["Doc.qml"], ui))
         chk.count({"ui": ui}, nontrivial=any(x in ui for x in ("<layout", "<action", "<item", "<spacer", "<attribute")))
     # string documents: well-formedness and grammar are judged by the same recogniser, read-back below
-    sreqs = [{"id": "s%d" % n, "src": string_doc(s), "type_name": "Doc", "modes": ["generate"]} for n, (_, s) in enumerate(STRINGS + NON_XML)]
+    sreqs = [{"id": "s%d" % n, "src": string_doc(x[1], x[2] if len(x) > 2 else None), "type_name": "Doc", "modes": ["generate"]} for n, x in enumerate(STRINGS + NON_XML)]
     sout = translate(sreqs)
-    for n, (what, s) in enumerate(STRINGS + NON_XML):
+    for n, (what, s) in enumerate([x[:2] for x in STRINGS + NON_XML]):
         run_ = sout["s%d" % n]["generate"]
         chk.count({"string": s}, nontrivial=True)
         if run_.get("panic"):
